@@ -277,8 +277,8 @@ PROPS["C20"] = dict(
 
 PROPS["C05"] = dict(
     modules=["Hub.Props.C05", "Hub.Props.IdTxn"],
-    gens=["c05", "c05stale", "store-c05"],
-    rule="(store-c05) forced schedules of two writers: the outer batch or transaction runs until it reaches one of the points tools/instr inserts into copies of StoreEntities / ExecuteTransaction / commitIDTxn (after filling the transaction, before and after the commit of the shared id transaction, after the data commit, after the counter update), there a second write — same or another dataset, sharing never-seen identifiers with the first, sometimes rejected after it has drawn identifiers — is started on a second goroutine and the first waits until it has returned or is parked on a lock; both must return and every read afterwards must be that of the two writes one after the other; (c05.stale) a forced schedule: a batch or a two-dataset transaction is started while another writer holds the dataset's write lock, that writer commits and releases, the parked "
+    gens=["c05", "c05stale", "store-c05", "c05core"],
+    rule="(c05.coretxn, child processes) one transaction that writes a dataset's meta entity in core.Dataset together with 0, 1 or 3 new entities of that dataset: it must return (the counter update at its end stores into core.Dataset again) and both parts must be there; (store-c05) forced schedules of two writers: the outer batch or transaction runs until it reaches one of the points tools/instr inserts into copies of StoreEntities / ExecuteTransaction / commitIDTxn (after filling the transaction, before and after the commit of the shared id transaction, after the data commit, after the counter update), there a second write — same or another dataset, sharing never-seen identifiers with the first, sometimes rejected after it has drawn identifiers — is started on a second goroutine and the first waits until it has returned or is parked on a lock; both must return and every read afterwards must be that of the two writes one after the other; (c05.stale) a forced schedule: a batch or a two-dataset transaction is started while another writer holds the dataset's write lock, that writer commits and releases, the parked "
          "writer commits after it — listing, scoped lookup (newest commit time) and the feed's recorded times must agree on the parked writer's version; child processes with 4-8 concurrent writers (single-dataset batches, some rejected; two-dataset transactions naming their datasets in both orders and minting new identifiers), "
          "readers and a dataset creator/deleter, GOMAXPROCS 1/4/16, a watchdog (a hang is a deadlock), then the final state is checked: listing = last feed entry per id = scoped lookup, every "
          "acknowledged write is in the feed in its client's order, recorded times never decrease along a feed; non-trivial = every run",
